@@ -82,6 +82,8 @@ type pathState struct {
 	snapshot     []gInfo
 	snapBase     int
 	sync         *syncState
+	now          int64   // virtual time (ns): advances only when no goroutine can run
+	deadlines    []int64 // pending sleeps / timers
 	countSub     string
 	callCount    int
 	raceOn       bool
